@@ -2,7 +2,7 @@
 From Coq Require Import List NArith ZArith Bool.
 From Coq.Strings Require Import Byte.
 From Coq Require Import QArith.
-From Model Require Import Bytes Sx Utf8 Frame Parser FrameParser Response Conn Persist Handshake Proxy Transport Conc Digest Url Selector.
+From Model Require Import Bytes Sx Utf8 Frame Parser FrameParser Response Conn Persist Handshake Proxy Transport Conc Digest Url Selector Connect.
 Import ListNotations.
 Open Scope N_scope.
 
@@ -206,6 +206,13 @@ Definition cmd_proxy_url (args : list sx) : sx :=
 Definition cmd_wakes (args : list sx) : sx :=
   L (map sx_Z (wakes (un_nat (nth_sx args 0)) (un_Z (nth_sx args 1)) (un_Z (nth_sx args 2)) (map un_Z (un_L (nth_sx args 3))))).
 
+(* (43 resolve_ok ((created connected)...)) -> ((index in use)?) ((kind index)...)   kind 0: socket() failed, 1: connect(), 2: close() *)
+Definition cmd_connect (args : list sx) : sx :=
+  let addrs := map (fun a => (un_bool (nth_sx (un_L a) 0), un_bool (nth_sx (un_L a) 1))) (un_L (nth_sx args 1)) in
+  let '(r, ops) := connect_sock (un_bool (nth_sx args 0)) addrs in
+  L [match r with Some i => L [sx_nat i] | None => L [] end;
+     L (map (fun o => match o with OCreateFail i => L [A 0; sx_nat i] | OConnect i => L [A 1; sx_nat i] | OClose i => L [A 2; sx_nat i] end) ops)].
+
 (* (40 tls (records...)) -> (chunk sizes ...) *)
 Definition cmd_drain (args : list sx) : sx :=
   let t := {| t_tls := negb (un_N (nth_sx args 0) =? 0); t_readahead := un_N (nth_sx args 0) =? 2;
@@ -253,6 +260,7 @@ Definition run_sx (req : sx) : sx :=
   | L (A 39 :: args) => cmd_request_url args
   | L (A 41 :: args) => cmd_proxy_url args
   | L (A 42 :: args) => cmd_wakes args
+  | L (A 43 :: args) => cmd_connect args
   | L (A 40 :: args) => cmd_drain args
   | L (A 50 :: args) => cmd_conc args
   | _ => L [A 998]
